@@ -15,6 +15,7 @@ import (
 	"encoding/base64"
 	"fmt"
 	"hash/fnv"
+	"html"
 	"sort"
 	"strings"
 
@@ -152,7 +153,52 @@ func run(c *fw.Ctx) {
 		}
 		t.flush(c)
 	})
+	// Size is an input dimension too (added after seeded change C18-8: a different code path for
+	// text above 128 KiB): texts from 4 KiB to 4 MiB built from the same hostile pieces, with sizes
+	// on both sides of the powers of two, and runs of characters that escaping expands five-fold.
+	c.Cases("bigtext", c.N(64, 640), func(i int, r *fw.Rand) {
+		t := tally{}
+		in := genBigText(r, i, c.Quick())
+		t["bigtext_inputs"]++
+		t["bigtext_bytes"] += int64(len(in))
+		evalText(c, t, "bigtext", in, false)
+		t.flush(c)
+	})
 	runE2E(c)
+}
+
+var bigTextSizes = []int{4 << 10, 32 << 10, 64<<10 - 1, 64<<10 + 1, 100 << 10, 128<<10 - 7, 128 << 10, 128<<10 + 1, 131 << 10, 200 << 10, 256<<10 + 1, 512 << 10, 1 << 20, 1<<20 + 3, 2 << 20, 4 << 20}
+
+// genBigText builds a text whose length (half of the cases: whose HTML-escaped length) just
+// exceeds a size from bigTextSizes.
+func genBigText(r *fw.Rand, idx int, quick bool) string {
+	sizes := bigTextSizes
+	if quick {
+		sizes = sizes[:13]
+	}
+	target := sizes[idx%len(sizes)]
+	byEscaped := (idx/len(sizes))%2 == 1
+	var b strings.Builder
+	esc := 0
+	filler := []string{"", "", "\"'\"'\"'\"'", "&&&&&&&&", "<<<<>>>>", "plain words and more plain words ", "\n"}[r.Intn(7)]
+	for {
+		n := b.Len()
+		if byEscaped {
+			n = esc
+		}
+		if n > target {
+			break
+		}
+		piece := genPlainText(r)
+		if filler != "" && r.Chance(2, 3) {
+			piece = strings.Repeat(filler, r.Range(1, 40))
+		}
+		b.WriteString(piece)
+		if byEscaped {
+			esc += len(html.EscapeString(piece))
+		}
+	}
+	return b.String()
 }
 
 func b64(s string) string { return base64.StdEncoding.EncodeToString([]byte(s)) }
